@@ -285,6 +285,10 @@ def apply(st, op, params, check=True):
             raise ValueError(op)
     except AssertionError as e:
         raise Disabled(str(e))
+    except Disabled:
+        raise
+    except Exception as e:  # noqa: BLE001 - a Model operation that raises on valid data is an observation, not a harness failure
+        return [("op_raises", "%s raised %s: %s" % (op, type(e).__name__, e))]
     # exact ties: which of several equally good points is the incumbent is not determined by the property (np.nanargmin
     # takes the first, a comparison keeps the old one) - follow the model's choice among tied points, so that a later
     # overwrite of "the incumbent" means the same slot for both
